@@ -284,7 +284,7 @@ def l_encode_nondet(ex, st, pos, kw, node, star, dstar):
 
 
 def l_utcnow(ex, st, pos, kw, node, star, dstar):
-    o = st.alloc('datetime'); st.wr(o, 'instant', I(fresh('now', z3.IntSort()))); return val(st, o)
+    o = st.alloc('datetime'); st.wr(o, 'instant', I(fresh('now', z3.IntSort()))); st.g['utcnow_reads'] = st.g.get('utcnow_reads', []) + [o]; return val(st, o)
 
 
 def l_uuid1(ex, st, pos, kw, node, star, dstar):
